@@ -44,7 +44,7 @@ func (cl *client) send(b []byte) {
 	if cl.dead {
 		return
 	}
-	cl.c.SetWriteDeadline(time.Now().Add(8 * time.Second))
+	cl.c.SetWriteDeadline(time.Now().Add(60 * time.Second))
 	if _, err := cl.c.Write(b); err != nil {
 		cl.dead = true
 	}
@@ -62,7 +62,7 @@ func (cl *client) barrier() (bfe_http2.VerifC37State, bool) {
 }
 
 func (cl *client) waitFor(ok func(bfe_http2.VerifC37State) bool) (bfe_http2.VerifC37State, bool) {
-	deadline := time.Now().Add(8 * time.Second)
+	deadline := time.Now().Add(90 * time.Second)
 	for {
 		s := cl.sc.VerifC37Sample()
 		if s.Closed || ok(s) {
@@ -103,13 +103,13 @@ func impl(in hv.Val) hv.Val {
 	cc, srv := net.Pipe()
 	defer cc.Close()
 	go (&bfe_http2.Server{}).ServeConn(srv, &bfe_http2.ServeConnOpts{
-		BaseConfig: &bfe_http.Server{ReadTimeout: 30 * time.Second, WriteTimeout: 30 * time.Second},
+		BaseConfig: &bfe_http.Server{ReadTimeout: 300 * time.Second, WriteTimeout: 300 * time.Second},
 		Handler:    h,
 	})
 	cl := &client{c: cc}
 	select {
 	case cl.sc = <-conns:
-	case <-time.After(5 * time.Second):
+	case <-time.After(30 * time.Second):
 		return hv.Err(1)
 	}
 
@@ -146,7 +146,7 @@ func impl(in hv.Val) hv.Val {
 			if !ok {
 				return hv.Err(2)
 			}
-		case <-time.After(5 * time.Second):
+		case <-time.After(30 * time.Second):
 			return hv.Err(3)
 		}
 		// plug: a SETTINGS frame; its ack is written into the write buffer and the flush of that buffer blocks.
@@ -258,7 +258,7 @@ func drain(cl *client, fr *bfe_http2.Framer, b *bytes.Buffer, wantHeaders int) h
 		tags := hv.L{}
 		headers, sawMarker := 0, false
 		rf := bfe_http2.NewFramer(io.Discard, cl.c)
-		cl.c.SetReadDeadline(time.Now().Add(10 * time.Second))
+		cl.c.SetReadDeadline(time.Now().Add(60 * time.Second))
 		for {
 			if sawMarker && headers >= wantHeaders {
 				res <- hv.L{hv.I(7), tags}
@@ -393,5 +393,5 @@ func gen(r *hv.Rng, i int, tier string) (string, hv.Val) {
 }
 
 func main() {
-	hv.Main(&hv.Spec{Prop: "C37", Gen: gen, Impl: impl, NQuick: 400, NThorough: 20000, Deadline: 60 * time.Second})
+	hv.Main(&hv.Spec{Prop: "C37", Gen: gen, Impl: impl, NQuick: 400, NThorough: 20000, Deadline: 300 * time.Second})
 }
